@@ -53,6 +53,8 @@ def run(R):
         r5_tail(R, m)
     if R.want("C09.R6"):
         r6(R, m)
+    if R.want("C09.R8"):
+        r8(R, m)
     if R.want("C09.R7"):
         # the refinement's g-vectors come from two routes that must be one function: the C kernel used by assignlabels and the
         # Python chain used by compute_gv (omega passed already multiplied by omegasign, grain origin from t_x,t_y,t_z).
@@ -606,3 +608,35 @@ def r6(R, m):
     par = getattr(pyfacts.containing_stmt(su[0]), "_parent", None)
     R.check(isinstance(par, ast.If) and nows(src(par.test)) in ("notscoreonly", "scoreonly==False", "scoreonlyisFalse"), "C09.R6", REL, su[0].lineno, "%s.refineubis" % CLS,
             "set_ubi under 'if not scoreonly'", "scoreonly no longer protects the grains from being modified")
+
+
+# --------------------------------------------------------------------------------------------------
+def r8(R, m):
+    R.rule("C09.R8", "every grain owns its translation vector: refinegrains stores refined positions in place ( gr.translation[k] = ... ), so "
+                     "grain.__init__ must copy the array it is given (np.array / .copy()); a view or the caller's own array (np.asarray, "
+                     "copy=False, plain assignment) makes all grains created from one start vector end at the position refined last")
+    inplace = [a for a in ast.walk(m.tree) if isinstance(a, (ast.Assign, ast.AugAssign))
+               for t in (a.targets if isinstance(a, ast.Assign) else [a.target])
+               if isinstance(t, ast.Subscript) and isinstance(t.value, ast.Attribute) and t.value.attr == "translation"]
+    if not inplace:
+        R.inst("C09.R8", "refinegrains no longer stores into <grain>.translation[...] in place: ownership is not needed")
+        return
+    gm = pyfacts.module(R, "ImageD11/grain.py")
+    init = gm.func("grain.__init__")
+    sets = [a for a in ast.walk(init) if isinstance(a, ast.Assign) and any(src(t) == "self.translation" for t in a.targets) and src(a.value) != "None"]
+    R.shape(len(sets) >= 1, "C09.R8", "ImageD11/grain.py", "grain.__init__", "the assignment of self.translation")
+    for a in sets:
+        v = a.value
+        d = (dotted(v.func) or "") if isinstance(v, ast.Call) else ""
+        fresh = False
+        if isinstance(v, ast.Call) and d.split(".")[-1] == "array" and not any(k.arg == "copy" and src(k.value) in ("False", "None", "0") for k in v.keywords):
+            fresh = True
+        if isinstance(v, ast.Call) and isinstance(v.func, ast.Attribute) and v.func.attr == "copy":
+            fresh = True
+        if isinstance(v, ast.Call) and d.split(".")[-1] in ("list", "tuple") and d == d.split(".")[-1]:
+            fresh = True
+        if isinstance(v, (ast.List, ast.ListComp)):
+            fresh = True
+        R.check(fresh, "C09.R8", "ImageD11/grain.py", a.lineno, "grain.__init__", "self.translation = %s (a fresh array)" % src(v)[:50],
+                "the grain keeps a reference to the caller's array: grains generated from one start vector share it, and the in-place "
+                "stores of refinepositions (refinegrains.py:%d) move all of them" % inplace[0].lineno)
